@@ -10,13 +10,14 @@ use ndarray::{
 use ndarray_interp::interp1d::cubic_spline::{
     BoundaryCondition, CubicSpline, RowBoundary, SingleBoundary,
 };
-use ndarray_interp::interp1d::{Interp1DBuilder, Linear};
-use ndarray_interp::interp2d::{Bilinear, Interp2DBuilder};
+use ndarray_interp::interp1d::{Interp1D, Interp1DBuilder, Linear};
+use ndarray_interp::interp2d::{Bilinear, Interp2D, Interp2DBuilder};
 use ndarray_interp::vector_extensions::{Monotonic, VectorExtensions};
 use ndarray_interp::{BuilderError, InterpolateError};
 
 use crate::proto::*;
 use crate::q::Q;
+use crate::z::Z;
 
 pub enum Outcome {
     Text(String),
@@ -296,6 +297,16 @@ macro_rules! i1_entries {
     }};
 }
 
+thread_local! {
+    /// low bits of the record id: they select between equivalent call orders of the builders (setter
+    /// order must not matter; the model has no notion of it)
+    static ORDER: std::cell::Cell<u64> = const { std::cell::Cell::new(0) };
+}
+
+fn order_bit(k: u32) -> bool {
+    ORDER.with(|o| (o.get() >> k) & 1 == 1)
+}
+
 macro_rules! i1_built {
     ($T:ty, $D:ty, $builder:expr, $spec:expr, $entry:expr, $t:expr) => {{
         match $spec {
@@ -305,9 +316,12 @@ macro_rules! i1_built {
             },
             StratSpec::Spl(ext, bc) => {
                 let bc = make_bc::<$T, $D>(bc)?;
-                match $builder
-                    .strategy(CubicSpline::new().extrapolate(ext).boundary(bc))
-                    .build()
+                let strat = if order_bit(0) {
+                    CubicSpline::new().boundary(bc).extrapolate(ext)
+                } else {
+                    CubicSpline::new().extrapolate(ext).boundary(bc)
+                };
+                match $builder.strategy(strat).build()
                 {
                     Err(e) => berr(e),
                     Ok(it) => i1_entries!($T, $D, it, $entry, $t),
@@ -322,7 +336,8 @@ macro_rules! i1_dim {
         let d = cow_d::<$T, $D>(&$data)?;
         match &$x {
             None => i1_built!($T, $D, Interp1DBuilder::new(d), $spec, $entry, $t),
-            Some(x) => i1_built!($T, $D, Interp1DBuilder::new(d).x(cow1(x)), $spec, $entry, $t),
+            // the documented shorthand `Interp1D::builder` for explicit axes, `Interp1DBuilder::new` for the default axis
+            Some(x) => i1_built!($T, $D, Interp1D::builder(d).x(cow1(x)), $spec, $entry, $t),
         }
     }};
 }
@@ -347,10 +362,12 @@ fn i1_scalar<T: Scalar>(
                 },
                 StratSpec::Spl(ext, bc) => {
                     let bc = make_bc::<T, Ix1>(bc)?;
-                    match $b
-                        .strategy(CubicSpline::new().extrapolate(ext).boundary(bc))
-                        .build()
-                    {
+                    let strat = if order_bit(0) {
+                        CubicSpline::new().boundary(bc).extrapolate(ext)
+                    } else {
+                        CubicSpline::new().extrapolate(ext).boundary(bc)
+                    };
+                    match $b.strategy(strat).build() {
                         Err(e) => berr(e),
                         Ok(it) => match it.interp_scalar(q) {
                             Ok(v) => Outcome::Text(format!("ok 0 {}", fmt_vals([v].into_iter()))),
@@ -502,7 +519,11 @@ macro_rules! i2_dim {
             (Some(x), Some(y)) => i2_built!(
                 $T,
                 $D,
-                Interp2DBuilder::new(d).x(cow1(x)).y(cow1(y)),
+                if order_bit(1) {
+                    Interp2D::builder(d).y(cow1(y)).x(cow1(x))
+                } else {
+                    Interp2D::builder(d).x(cow1(x)).y(cow1(y))
+                },
                 $ext,
                 $entry,
                 $t
@@ -536,7 +557,7 @@ fn i2_scalar<T: Scalar>(
         (None, None) => go!(Interp2DBuilder::new(d)),
         (Some(x), None) => go!(Interp2DBuilder::new(d).x(cow1(x))),
         (None, Some(y)) => go!(Interp2DBuilder::new(d).y(cow1(y))),
-        (Some(x), Some(y)) => go!(Interp2DBuilder::new(d).x(cow1(x)).y(cow1(y))),
+        (Some(x), Some(y)) => go!(Interp2D::builder(d).x(cow1(x)).y(cow1(y))),
     })
 }
 
@@ -607,10 +628,13 @@ pub fn run_line(line: &str) -> String {
         Err(e) => return format!("{id} bad-op {e}"),
     };
     crate::q::reset_arena();
+    ORDER.with(|o| o.set(id.parse::<u64>().unwrap_or(0)));
     let r = catch_unwind(AssertUnwindSafe(|| {
         let r = match s {
             "Q" => run_op::<Q>(&mut t),
             "F" => run_op::<f64>(&mut t),
+            // i64 elements (through the transparent stand-in `Z`): integer division, integer casts
+            "I" => run_op::<Z>(&mut t),
             _ => Err(format!("bad scalar type {s}")),
         };
         match r {
